@@ -234,6 +234,8 @@ func cmdL1(args []string) error {
 			histFile = args[i+1]
 		case "-only":
 			only = args[i+1]
+		case "-invariants":
+			evalInvariants = args[i+1] == "1"
 		case "-restarts":
 			restarts = args[i+1] == "1"
 		case "-twin":
